@@ -9,9 +9,11 @@ fn main() {
     let nbins: usize = a[4].parse().unwrap();
     let refmodel_path = &a[5];
     let exclude: std::collections::HashSet<usize> = a.get(6).map(|s| s.split(',').filter(|x| !x.is_empty()).map(|x| x.parse().unwrap()).collect()).unwrap_or_default();
+    // optional 7th argument: build only this lexer (targeted replay)
+    let only: Option<usize> = a.get(7).and_then(|s| s.parse().ok());
     let gs = groups(prop, tier);
     let flat = flatten(&gs);
-    let included: Vec<usize> = (0..flat.len()).filter(|g| !exclude.contains(g)).collect();
+    let included: Vec<usize> = (0..flat.len()).filter(|g| !exclude.contains(g) && only.map(|o| o == *g).unwrap_or(true)).collect();
     let nbins = nbins.min(included.len().max(1));
     std::fs::create_dir_all(format!("{outdir}/src/bin")).unwrap();
     let pkg = format!("{}_{}", prop.to_lowercase(), tier);
